@@ -66,6 +66,9 @@ func c06(c *ev.Ctx) {
 	})
 	c06Names(c)
 	c06Fixed(c)
+	// the function table belongs to the script in force: after preparing another
+	// script on the same evaluator a function only the old script defined is unknown
+	c20RePrepare(c)
 }
 
 // c06Names: one identifier used in several roles at once (global, function,
